@@ -53,8 +53,13 @@ def spec_doc(name):
     return doc
 
 
+SWEEP_CODES = [404, 422, 409, 401, 403, 429, 500, 503, 400, 502, 504, 410, 415, 451]
+
+
 def cases(tier, seed):
-    return [{"layout": l, "tier": tier} for l in LAYOUTS]
+    # "sweep": a linear history in which every new client brings one more status code, so that the shared core accumulates 1, 2, ... 14
+    # exception classes (whatever the core renders from the union - class list, imports, __all__ - is exercised at every size)
+    return [{"layout": l, "tier": tier} for l in LAYOUTS] + [{"layout": l, "tier": tier, "sweep": True} for l in LAYOUTS]
 
 
 def core_state(root, core_pkg):
@@ -108,9 +113,46 @@ def _imports(t):
     return import_clients(root, generated, core)
 
 
+def run_sweep(case):
+    lay = LAYOUTS[case["layout"]]
+    first = lay["clients"][0]
+    prefix = first.rsplit(".", 1)[0] + "." if "." in first else ""
+    clients = [first] + [f"{prefix}svc{i}" for i in range(1, len(SWEEP_CODES))]
+    found = []
+    nontriv = []
+    hist = []
+    with sandbox.scratch("c11s-") as base:
+        root = os.path.join(base, "proj")
+        os.makedirs(root)
+        for i, (c, code) in enumerate(zip(clients, SWEEP_CODES)):
+            op = ops.op("get", "/x/{id}", [ops.param("id", "path", True, "integer")], None, {"200": "json-model", str(code): "none"})
+            op["tags"] = ["things"]
+            op["op_id"] = "getThing"
+            doc, _ = ops.build_doc([op], auto_tag=False, auto_id=False, prefix=False)
+            core_arg = None if lay.get("default_for") == c else lay["core"]
+            files, err = sandbox.generate(doc, root, output_package=c, core_package=core_arg, force=True, spec_name=f"sweep{i}.json")
+            hist.append(f"gen({c},s{code},force)")
+            key = f"{case['layout']}|sweep|{' ; '.join(hist)}"
+            nontriv.append(key)
+            if err is not None:
+                found.append({"sig": f"C11|{case['layout']}|sweep: generation into the shared project fails|{type(err).__name__}", "key": key, "msg": f"{err} | {key}"[:400]})
+                break
+            for cl, e, raw in import_clients(root, clients[:i + 1], lay["core"]):
+                victim = "the client just generated" if cl == c else "a client generated earlier"
+                found.append({"sig": f"C11|{case['layout']}|{victim} does not import after the step|{e}", "key": key,
+                              "msg": f"{cl}: {raw} | {i + 1} clients, {i + 1} exception classes | history {' ; '.join(hist)}"})
+            if found:
+                break
+    return {"findings": found, "evals": len(hist), "nontrivial": nontriv, "nontrivial_multi": True, "states": len(hist) + 1, "transitions": len(hist), "validated": len(hist),
+            "outcome": f"{case['layout']}:sweep:" + ("finding" if found else "ok"),
+            "sample": {"layout": case["layout"], "sweep_steps": len(hist), "codes": SWEEP_CODES[:len(hist)]}}
+
+
 def run_case(case):
     from .. import kernel
 
+    if case.get("sweep"):
+        return run_sweep(case)
     lay = LAYOUTS[case["layout"]]
     tier = case["tier"]
     clients = lay["clients"][:2] if tier == "quick" else lay["clients"]
